@@ -35,7 +35,9 @@ use ironcalc_base::{
 
 use crate::export::conditional_formatting::get_conditional_formatting_xml;
 
-use super::{escape::escape_xml, xml_constants::XML_DECLARATION};
+use super::{
+    escape::escape_xml, styles_util::get_color_xml, xml_constants::XML_DECLARATION,
+};
 
 fn get_range_str(row: i32, column: i32, width: i32, height: i32) -> Option<String> {
     let column1 = number_to_column(column)?;
@@ -655,9 +657,18 @@ pub(crate) fn get_worksheet_xml(
 
     let hyperlinks_section = get_hyperlinks_section(worksheet);
 
+    // <sheetPr><tabColor rgb="FFFF0000"/></sheetPr>
+    let tab_color = get_color_xml(&worksheet.color, "tabColor");
+    let sheet_pr = if tab_color.is_empty() {
+        "".to_string()
+    } else {
+        format!("<sheetPr>{tab_color}</sheetPr>")
+    };
+
     format!(
         "{XML_DECLARATION}\
 <worksheet xmlns=\"http://schemas.openxmlformats.org/spreadsheetml/2006/main\" xmlns:r=\"http://schemas.openxmlformats.org/officeDocument/2006/relationships\">\
+  {sheet_pr}\
   <dimension ref=\"{dimension}\"/>\
   <sheetViews>\
     <sheetView workbookViewId=\"0\"{show_grid_lines}{tab_selected}>\
